@@ -5,7 +5,8 @@
      `on_disconnected`) in a watchdog thread (3 s bound), require NOT_CONNECTED and an empty receive buffer, reconnect (`on_connected`),
      send a Select.req and require Select.rsp + SELECTED.  The same history goes to the thread-level model (`rx wedge …`): C.
 (ii) witnesses of recorded findings are replayed on the implementation (DESIGN §4) and reported under stable classes.
-(iii) thorough (+ one F-13 replay in quick): real `TcpServerConnection` / `TcpClientConnection` on loopback with a raw peer socket that cuts
+(iii) quick: the F-13 / idle-server witnesses and a re-listen scenario (connect, select, close by either side, listen again on the same
+     port) on real loopback sockets; thorough: real `TcpServerConnection` / `TcpClientConnection` on loopback with a raw peer socket that cuts
      and closes; `enable()/disable()` must return within a bound.
 Every wait is bounded; all helper threads are daemons; the process ends with `os._exit(0)` (secsgem's own threads are not daemons).
 """
@@ -622,9 +623,82 @@ def idle_server_witness(res, drv):
             res.violate("c09-disable-hang", "passive connection without a peer: disable() did not return within 3 s", case, "returns", d)
 
 
+def connect_peer(port, tries=60):
+    for _ in range(tries):
+        try:
+            return socket.create_connection(("127.0.0.1", port), timeout=1)
+        except OSError:
+            time.sleep(0.05)
+    return None
+
+
+def select_on(peer, p, system):
+    peer.sendall(SELECT_REQ(system))
+    got = read_frames(peer, 1, 3.0)
+    sel = M.wait_until(lambda: p.connection_state.current == ConnectionState.CONNECTED_SELECTED, 3.0)
+    return bool(got) and got[0].header.s_type.value == 2 and got[0].header.system == system and sel, got
+
+
+def relisten_case(res, local_first: bool):
+    """A passive endpoint on a real loopback port has to listen again on the SAME port after a connection ended — also when the endpoint
+    itself closed first (local `disable()` of an established connection leaves the accepted socket's port in TIME_WAIT)."""
+    port = free_port()
+    p = secsgem.hsms.HsmsProtocol(secsgem.hsms.HsmsSettings(address="127.0.0.1", port=port, connect_mode=secsgem.hsms.HsmsConnectMode.PASSIVE))
+    case = {"kind": "tcp-relisten", "who_closes_first": "endpoint (disable)" if local_first else "peer"}
+    res.count(("tcp-relisten", local_first), sample={"op": "real TcpServerConnection: connect, select, close, listen again on the same port", **case})
+    res.bump("tcp_cases", "relisten " + ("local close" if local_first else "peer close"))
+    if not call_bounded(p.enable, 5):
+        res.violate("c09-enable-hang", "enable() did not return within 5 s", case)
+        return
+    peer = connect_peer(port)
+    if peer is None:
+        res.violate("c09-no-listen", "passive endpoint does not accept a connection within 3 s of enable()", case)
+        call_bounded(p.disable, 5)
+        return
+    ok, got = select_on(peer, p, 4141)
+    if not ok:
+        res.violate("c09-reselect", "first connection: Select.req not answered / not SELECTED", case, "Select.rsp(4141)",
+                    [(b.header.s_type.value, b.header.system) for b in got])
+    if local_first:
+        M.wait_until(lambda: not diag(p)["accept_or_connect_thread_alive"], 3.0)
+        if not call_bounded(p.disable, 8):
+            res.violate("c09-disable-hang", "disable() of an established connection did not return within 8 s", case, "returns", diag(p))
+            return
+        read_frames(peer, 5, 1.0)                       # Separate.req, then EOF
+        peer.close()
+        if p.connection_state.current != ConnectionState.NOT_CONNECTED:
+            res.violate("c09-state", "not NOT_CONNECTED after disable()", case, "NOT_CONNECTED", str(p.connection_state.current))
+        if not call_bounded(p.enable, 5):
+            res.violate("c09-enable-hang", "second enable() did not return within 5 s", case)
+            return
+    else:
+        peer.close()
+        if not M.wait_until(lambda: p.connection_state.current == ConnectionState.NOT_CONNECTED, 6.0):
+            res.violate("c09-close-hang", "NOT_CONNECTED not reached within 6 s of the peer's close", case, "NOT_CONNECTED", str(p.connection_state.current))
+            call_bounded(p.disable, 3)
+            return
+    peer2 = connect_peer(port, tries=80)
+    if peer2 is None:
+        st = getattr(p._connection, "_server_thread", None)
+        res.violate("c09-no-reconnect", "the passive endpoint does not listen on its port again within 4 s after the connection ended "
+                    "(a new peer cannot connect)", case, "accepts a new connection", {"server_thread_alive": bool(st and st.is_alive()), **diag(p)})
+    else:
+        ok, got = select_on(peer2, p, 4242)
+        if not ok:
+            res.violate("c09-reselect", "new connection: Select.req not answered / not SELECTED", case, "Select.rsp(4242)",
+                        [(b.header.s_type.value, b.header.system) for b in got])
+    M.wait_until(lambda: not diag(p)["accept_or_connect_thread_alive"], 3.0)
+    if not call_bounded(p.disable, 8):
+        res.violate("c09-disable-hang", "final disable() did not return within 8 s", case, "returns", diag(p))
+    if peer2 is not None:
+        peer2.close()
+
+
 def tcp_part(res, rng, drv, big):
     f13_witness(res, drv)
     idle_server_witness(res, drv)
+    relisten_case(res, True)
+    relisten_case(res, False)
     if not big:
         return
     stream = LINKTEST_REQ(31) + DATA(32, 1, 13, True, b"\x01\x02\x03") + LINKTEST_RSP(33)
@@ -679,7 +753,7 @@ def main():
         M.guarded(res, "witness send failure", lambda: witness_send_failure(res, drv))
     if not replaying or "c09-stale-reply-next-connection" in rec_classes:
         M.guarded(res, "witness stale reply", lambda: witness_stale_reply(res, drv))
-    if not replaying or rec_classes & {"c09-tcp-disable-hang", "c09-tcp-server-idle-disable-hang", "c09-disable-hang", "c09-enable-hang", "c09-no-listen", "c09-no-reconnect", "c09-no-connect"} \
+    if not replaying or rec_classes & {"c09-tcp-disable-hang", "c09-tcp-server-idle-disable-hang", "c09-disable-hang", "c09-enable-hang", "c09-no-listen", "c09-no-reconnect", "c09-no-connect", "c09-reselect", "c09-state"} \
             or any((v.get("case") or {}).get("kind", "").startswith("tcp") for v in recorded):
         M.guarded(res, "tcp", lambda: tcp_part(res, rng.fork("tcp"), drv, big))
     if replaying:
